@@ -1157,7 +1157,8 @@ func genGoMiniAll() []*leanFile {
 		[]string{sv + "partition.go"})})
 	out = append(out, &leanFile{name: "GoReplication", raw: genGoMini("GoReplication",
 		[]string{sv + "partition.go"},
-		map[string][]string{sv + "partition.go": {"partition.handleReplicationRequest", "partition.handleReplicationResponse", "partition.handleLeaderOffsetRequest", "minInt64"}},
+		map[string][]string{sv + "partition.go": {"partition.handleReplicationRequest", "partition.handleReplicationResponse", "partition.handleLeaderOffsetRequest", "minInt64",
+			"partition.checkLeaderHealth", "partition.sendReplicationRequest"}},
 		[]string{sv + "partition.go"})})
 	out = append(out, &leanFile{name: "GoElect", raw: genGoMini("GoElect",
 		[]string{sv + "metadata.go"},
